@@ -7,7 +7,7 @@ to the same allocator."""
 import re
 import build, zv, frames
 
-ASSUMPTIONS = ["the catalogue of scenarios is finite (30); for each scenario the enumeration over k is complete, the allocation sites themselves are not modelled",
+ASSUMPTIONS = ["the catalogue of scenarios is finite (41: 30 + 11 in which the failing context only references objects the caller still owns); for each scenario the enumeration over k is complete, the allocation sites themselves are not modelled",
                "in multithreaded scenarios the k-th request depends on the OS schedule (sampled); allocations by libc / pthread outside ZSTD_customMem are not failed"]
 
 SRCS = ["zvh_fault.c"] + ["zvh_fault_%s.c" % f for f in ("cover", "fastcover", "zdict", "divsufsort")]
@@ -19,12 +19,21 @@ def hx(variant="plain"):
 
 
 def parse(o):
-    m = re.match(r"fault=(\d+) allocs=(\d+) op=(\S+) (?:retry=(\S+) )?retry2=(\S+) log=(.*)$", o)
+    m = re.match(r"fault=(\d+) allocs=(\d+) op=(\S+) (?:probe=(\S+) )?(?:retry=(\S+) )?retry2=(\S+) log=(.*)$", o)
     if not m:
         return None
     g = m.groups()
-    retry = g[3] if g[3] else g[4]          # a failing smaller job after the reset is reported first
-    return (g[0], g[1], g[2], retry, g[5])
+    retry = g[4] if g[4] else g[5]          # a failing smaller job after the reset is reported first
+    return (g[0], g[1], g[2], retry, g[6], g[3])
+
+
+def owned(n):
+    """scenario family: objects the caller still owns (shared thread pool, referenced CDict / DDict / prefix) must survive a failed call"""
+    return n.startswith("own_")
+
+
+def scen_of(op):
+    return op.split()[1]
 
 
 def run_ops(exe, ops):
@@ -38,7 +47,8 @@ def run_ops(exe, ops):
             i += len(out)
             if i < len(chunk):
                 # the op at index i killed the harness
-                res.append((None, "exit %d: %s" % (rc, err[-1200:])))
+                head = " | ".join(l.strip()[:300] for l in err.split("\n") if re.search(r"ERROR: \w+Sanitizer|^SUMMARY: |runtime error:", l))[:900]
+                res.append((None, "exit %d: %s%s" % (rc, (head + " || ") if head else "", err[-1200:])))
                 i += 1
         return res
     return frames.parallel(work, frames.split_chunks(ops, 16))
@@ -48,19 +58,24 @@ def judge(ctx, ops, results, variant, stats):
     logs, idx = [], []
     for op, (o, crash) in zip(ops, results):
         if crash is not None or o is None or o.startswith("TIMEOUT"):
-            ctx.violation("[%s build] crash / sanitizer report / hang when an allocation fails: %s -> %s" % (variant, op, (crash or o or "")[-400:]), dict(kind="monitor", op=op, variant=variant, stderr=crash or o))
+            ctx.violation("[%s build] crash / sanitizer report / hang when an allocation fails: %s -> %s" % (variant, op, (crash or o or "")[:900] if " || " in (crash or "") else (crash or o or "")[-400:]), dict(kind="monitor", op=op, variant=variant, stderr=crash or o))
             continue
         g = parse(o)
         if not g:
             ctx.violation("unparsable harness line for %s: %s" % (op, o[:200]), dict(kind="internal", op=op, line=o[:500]), no_input=True)
             continue
-        fault, allocs, opres, retry, log = g
+        fault, allocs, opres, retry, log, probe = g
         stats["runs"] += 1
         stats["fired"] += int(fault)
         if fault != "0" and opres == "ok":
             stats["fault_survived"] += 1
         if fault != "0" and ":" in opres:
             ctx.violation("[%s] wrong result (not an error) under allocation failure: %s -> op=%s" % (variant, op, opres), dict(kind="monitor", op=op, variant=variant, result=o[:300]))
+        if owned(scen_of(op)) and probe is None:
+            ctx.violation("the harness did not probe the caller-owned objects of %s: %s" % (op, o[:200]), dict(kind="internal", op=op, line=o[:500]), no_input=True)
+        if probe is not None and not probe.startswith("ok"):
+            ctx.violation("[%s] an object the caller still owns (it was only referenced by the context) did not survive the failed call: %s -> probe=%s (call: %s)" % (variant, op, probe, opres),
+                          dict(kind="monitor", op=op, variant=variant, result=o[:300]))
         if not retry.startswith("ok"):
             ctx.violation("[%s] context not reusable after the failed call + reset: %s -> retry=%s (first call: %s)" % (variant, op, retry, opres), dict(kind="monitor", op=op, variant=variant, result=o[:300]))
         logs.append(log.strip() or "-")
@@ -85,17 +100,17 @@ def correspondence(ctx):
     allocs = {}
     for n, (o, crash) in zip(names, base):
         g = parse(o) if o else None
-        if not g or g[2] != "ok" or not g[3].startswith("ok"):
+        if not g or g[2] != "ok" or not g[3].startswith("ok") or (g[5] is not None and not g[5].startswith("ok")):
             ctx.violation("scenario %s fails without any fault: %s" % (n, (o or crash or "")[:300]), dict(kind="internal", op="run %s 0" % n), no_input=True)
             continue
         allocs[n] = int(g[1])
     judge(ctx, ["run %s 0" % n for n in names], base, "plain", stats)
     ops = []
     for n, a in allocs.items():
-        mt = n.startswith("mt") or n.startswith("opt_")
-        top = a + (3 if mt else 0)
+        mt = n.startswith("mt") or n.startswith("opt_") or "_mt" in n
+        top = a + ((8 if owned(n) else 3) if mt else 0)     # worker-side requests come and go with the schedule (own_pool_mt_public: 13..21)
         ks = list(range(1, top + 1))
-        if quick and len(ks) > 48:
+        if quick and len(ks) > 48 and not owned(n):
             ks = ks[:24] + sorted(rng.sample(ks[24:], 24))
         ops += ["run %s %d" % (n, k) for k in ks]
         if not quick and a <= 60:
@@ -107,12 +122,12 @@ def correspondence(ctx):
     judge(ctx, ops, res, "plain", stats)
     # sanitizer build: use-after-free of a quarantined (poisoned) block, overflow inside a half-initialised object
     exe_s = hx("san")
-    sops = ops if not quick else [o for o in ops if rng.random() < 0.45 or any(t in o for t in ("grow", "more_workers"))]
+    sops = ops if not quick else [o for o in ops if rng.random() < 0.45 or any(t in o for t in ("grow", "more_workers")) or owned(scen_of(o))]
     res_s = run_ops(exe_s, sops)
     judge(ctx, sops, res_s, "san", stats)
     return dict(evaluations=stats["runs"], distinct_nontrivial=len(set(ops)),
-                rule="one evaluation = one (scenario, k[, k2]) run in one build; distinct = distinct (scenario, k, k2); every k in 1..allocs(S) (+3 for multithreaded scenarios whose count varies) in the plain build, "
-                     "a 45% sample + all growth scenarios in the ASan+UBSan build (quick) / everything in both builds + all pairs (thorough)",
+                rule="one evaluation = one (scenario, k[, k2]) run in one build; distinct = distinct (scenario, k, k2); every k in 1..allocs(S) (+3 / +8 for multithreaded scenarios whose count varies) in the plain build, "
+                     "a 45% sample + all growth scenarios + all caller-owned-object scenarios (own_*: every k, never sampled) in the ASan+UBSan build (quick) / everything in both builds + all pairs (thorough)",
                 samples=[dict(op=ops[0], result=(res[0][0] or "")[:300])], scenarios=allocs, faults_fired=stats["fired"], op_succeeded_despite_fault=stats["fault_survived"], ledgers_replayed_in_lean=stats["ledgers"])
 
 
@@ -141,4 +156,4 @@ def replay(ctx, data):
         return dict(violates=True, crash=crash)
     g = parse(o)
     rc, mout, merr = zv.run([zv.driver_exe(), "ledger"], (g[4].strip() or "-") + "\n")
-    return dict(violates=(not mout.startswith("clean")) or not g[3].startswith("ok"), ledger=mout.strip(), result=o[:400])
+    return dict(violates=(not mout.startswith("clean")) or not g[3].startswith("ok") or (g[5] is not None and not g[5].startswith("ok")), ledger=mout.strip(), result=o[:400])
